@@ -14,8 +14,60 @@ def src(relpath):
         return f.read()
 
 
+# ------------------------------------------------------------------------------------------------ robust source ties
+# The recognisers of this directory were written against one revision of /repo (BASELINE).  Before an extractor looks at
+# a file, every function of it that differs textually from the baseline's function of the same qualified name but is
+# *alpha-equivalent* to it (tools/extract/_norm.py: renamed locals, reordered independent statements, docstrings / comments /
+# logging, append-loop vs comprehension, early returns vs elif chain) is replaced by the baseline's AST.  A harmless
+# refactoring therefore regenerates byte-identical Extracted/*.lean; any other change reaches the extractor untouched.
+# VERIF_NO_CANON=1 switches this off (to measure what it buys).  If the baseline text is unavailable nothing is replaced.
+CANONICALISED = []      # (relpath, qualname) replaced on this run; reported in the evidence
+_BASE_CACHE = {}
+
+
+def baseline_commit():
+    try:
+        with open(os.path.join(os.path.dirname(os.path.abspath(__file__)), "BASELINE")) as f:
+            return f.read().split()[0]
+    except (OSError, IndexError):
+        return None
+
+
+def baseline_src(relpath):
+    """Text of `relpath` at the baseline commit of /repo (read from /repo's git objects; works in worktrees), or None."""
+    if relpath in _BASE_CACHE:
+        return _BASE_CACHE[relpath]
+    text = None
+    c = baseline_commit()
+    if c and not os.environ.get("VERIF_NO_CANON"):
+        import subprocess
+        try:
+            p = subprocess.run(["git", "-C", core.REPO, "show", f"{c}:{relpath}"], capture_output=True, text=True, timeout=60)
+            if p.returncode == 0:
+                text = p.stdout
+        except Exception:  # noqa: BLE001
+            text = None
+    _BASE_CACHE[relpath] = text
+    return text
+
+
+def parse_text(text, relpath):
+    """`ast.parse(text)` with the functions that are alpha-equivalent to the baseline replaced by the baseline's AST."""
+    tree = ast.parse(text)
+    base = baseline_src(relpath)
+    if base is not None and base != text:
+        from . import _norm
+        try:
+            for q in _norm.canon_tree(tree, ast.parse(base)):
+                if (relpath, q) not in CANONICALISED:
+                    CANONICALISED.append((relpath, q))
+        except Exception:  # noqa: BLE001   (never let the normaliser break an extractor: fall back to the plain tree)
+            return ast.parse(text)
+    return tree
+
+
 def parse(relpath):
-    return ast.parse(src(relpath))
+    return parse_text(src(relpath), relpath)
 
 
 def find_class(tree, name):
@@ -62,4 +114,6 @@ def run_all(ctx, which):
         facts[name] = f
         for anchor, why in lost:
             ctx.tie_broken(f"extract:{anchor}", why)
+    if CANONICALISED:
+        ctx.extract_diff.append("functions alpha-equivalent to the baseline, read as the baseline: " + ", ".join(f"{f}:{q}" for f, q in CANONICALISED))
     return facts
